@@ -124,6 +124,15 @@ def run_sharded(module: str, cfg_text: str, *, tag: str, nshards: int, env: dict
         return list(ex.map(one, range(nshards)))
 
 
+def _clean(x):
+    """JSON null is not a TLA+ value: drop None-valued keys, recursively"""
+    if isinstance(x, dict):
+        return {k: _clean(v) for k, v in x.items() if v is not None}
+    if isinstance(x, (list, tuple)):
+        return [_clean(v) for v in x]
+    return x
+
+
 def judge_traces(module: str, records: list[dict], *, tag: str, nshards: int = 8, cfg_extra: str = "",
                  env: dict | None = None, heap: str = "1g", timeout: int = 3600) -> tuple[list[dict], int, int]:
     """Pipeline B: write records as ndjson shards, let the trace instance `module` judge each one.
@@ -143,7 +152,7 @@ def judge_traces(module: str, records: list[dict], *, tag: str, nshards: int = 8
         f = work / f"trace.{i}.ndjson"
         with open(f, "w") as fh:
             for r in sh:
-                fh.write(json.dumps(r, separators=(",", ":")) + "\n")
+                fh.write(json.dumps(_clean(r), separators=(",", ":")) + "\n")
         senv.append({"TRACE_FILE": str(f)})
     cfg = "INIT Init\nNEXT Next\nINVARIANT Judge\nCHECK_DEADLOCK FALSE\n" + cfg_extra
     res = run_sharded(module, cfg, tag=tag, nshards=nshards, env=env, shard_env=senv, heap=heap,
